@@ -540,6 +540,8 @@ def run_case(st: Stats, case, bound):
         want = sf.records()
         if case[0] == "atom":
             want = fix_multi_expected(sf, want)
+        if case[0] in ("files", "shape") and ch is not None and ch.choose("byte-order-mark", 2):
+            text = "\ufeff" + text  # the file was saved with a UTF-8 byte-order mark in front
         r = fordrun.build_fast({"src/m.f90": text}, DISPLAY_ALL)
         return sf, text, want, r
 
